@@ -341,10 +341,21 @@ def setup(ctx):
     ctx.p_bfs = ctx.register(Part("bfs", None, reqs_bfs, judge_bfs))
     ctx.p_same = ctx.register(Part("samestate", None, reqs_same, judge_same))
     ctx.p_random = ctx.register(Part("random", gen_random, reqs_random, judge_random))
+    # the same histories through the definitions / evaluate endpoints of the HTTP service (server/src/server.rs is one of this property's
+    # anchors: what the endpoints do with the keys before they reach the workspace belongs to the history); generator, protocol and
+    # reference are C18's
+    from . import c18
+
+    def judge_http(ctx, case, resp):
+        f = c18.judge_history(ctx, case, resp, part="http")
+        if f is not None and f.sig.startswith("C18/"):
+            f.sig = "C17/http/" + f.sig[4:]
+        return f
+    ctx.p_http = ctx.register(Part("http", c18.gen_ops, lambda case: [], judge_http))
 
 
 LATE_TAGS = ("G",)      # models added to the alphabet later: in the quick tier they join the enumeration to a smaller depth (cost)
-OPS_CORE = [op for op in OPS if not (op[0] in ("add", "replace") and op[1] in LATE_TAGS) and not (op[0] == "remove" and (op[1], op[2]) in [WM.key_of(t) for t in LATE_TAGS])]
+OPS_CORE = [op for op in OPS if not (op[0] in ("add", "replace") and op[1] in LATE_TAGS) and not (op[0] == "remove" and (op[1], op[2]) in [WM.key_of(t) for t in LATE_TAGS] + WM.PADDED_KEYS)]
 
 
 def bfs(ctx, depth, OPS=OPS, tag=""):
@@ -352,7 +363,9 @@ def bfs(ctx, depth, OPS=OPS, tag=""):
     ctx.enumerate(ctx.p_bfs, [{"ops": []}], name=tag + "bfs level 0", exhaustive=True)
     if ctx.stop():
         return {}
-    root = _OBS[canon([])]
+    root = _OBS.get(canon([]))
+    if root is None:
+        return {}       # the part was not run (VERIF_PARTS)
     states = {root: [[], None]}
     frontier = [[]]
     for level in range(1, depth + 1):
@@ -408,6 +421,8 @@ def run(ctx):
     if ctx.stop():
         return
     ctx.forall(ctx.p_random, ctx.scale(1500, 200000), batch=40)
+    if not ctx.stop():
+        ctx.forall(ctx.p_http, ctx.scale(1500, 100000), batch=1)
 
 
 if __name__ == "__main__":
